@@ -26,15 +26,17 @@ Print Assumptions chain_exact.
 (* the same for an arbitrary handler type and an arbitrary action of middleware on handlers:
    the four special handlers New composes *)
 Theorem chain_exact_special :
-  forall (H : Type) (wrap : mwid -> H -> H) (special : kind -> H) (grow : nat -> nat -> nat) (gopts : list gopt),
+  forall (H : Type) (wrap : mwid -> H -> H) (special custom : kind -> H) (grow : nat -> nat -> nat) (gopts : list gopt),
     match spec_globals gopts [] with
-    | None => exists h, new H wrap special grow gopts = (h, Err ErrInvalidConfig)
+    | None => exists h, new H wrap special custom grow gopts = (h, Err ErrInvalidConfig)
     | Some G => exists h s,
-        new H wrap special grow gopts =
-          (h, Ok (mkRouter H s (fold_right wrap (special KNoRoute) (scoped G KNoRoute))
-                               (fold_right wrap (special KNoMethod) (scoped G KNoMethod))
+        (* whatever feature flags the options set: all four chains carry their scoped middleware *)
+        new H wrap special custom grow gopts =
+          (h, Ok (mkRouter H s (fold_right wrap (base_h H special custom gopts KNoRoute) (scoped G KNoRoute))
+                               (fold_right wrap (base_h H special custom gopts KNoMethod) (scoped G KNoMethod))
                                (fold_right wrap (special KRedirect) (scoped G KRedirect))
-                               (fold_right wrap (special KOptions) (scoped G KOptions))))
+                               (fold_right wrap (base_h H special custom gopts KOptions) (scoped G KOptions))
+                               (cfg_of gopts)))
         /\ wf h s /\ contents h s = map mk_glob G
     end.
 Proof. exact new_spec. Qed.
@@ -43,31 +45,36 @@ Print Assumptions chain_exact_special.
 (* ... and the three handlers of a route NewRoute composes (hbase bare, hself route-only, hall globals outside) *)
 Theorem chain_exact_route :
   forall (H : Type) (wrap : mwid -> H -> H) (route_h : nat -> H) (grow : nat -> nat -> nat)
-         (h : heap) (r : router H) (G : list (mwid * N)) (hid : nat) (ms : list (option mwid)) (h1 : heap) (res : outcome (route H)),
+         (h : heap) (r : router H) (G : list (mwid * N)) (hid : nat) (ms : list (option mwid)) (ts : list tsopt) (h1 : heap) (res : outcome (route H)),
     wf h (r_mws H r) -> contents h (r_mws H r) = map mk_glob G ->
-    new_route H wrap route_h grow h r hid ms = (h1, res) ->
+    new_route H wrap route_h grow h r hid ms ts = (h1, res) ->
     wf h1 (r_mws H r) /\ contents h1 (r_mws H r) = map mk_glob G /\
     if has_nil ms then res = Err ErrInvalidConfig
     else exists rt, res = Ok rt /\
            (rt_hbase H rt = route_h hid /\
             rt_hself H rt = fold_right wrap (route_h hid) (somes ms) /\
             rt_hall H rt = fold_right wrap (route_h hid) (scoped G KRoute ++ somes ms)) /\
+           rt_flags H rt = route_flags (r_cfg H r) ts /\
            wf h1 (rt_mws H rt) /\ contents h1 (rt_mws H rt) = map mk_glob G ++ map mk_rt (somes ms) /\
            (s_arr (rt_mws H rt) = s_arr (r_mws H r) <-> somes ms = []) /\
            (somes ms = [] -> s_cap (rt_mws H rt) = s_len (rt_mws H rt)).
 Proof. exact new_route_spec. Qed.
 Print Assumptions chain_exact_route.
 
-(* non-vacuity: DefaultOptions in the middle of four options, scoped middleware, Update, all five kinds *)
+(* non-vacuity: DefaultOptions in the middle of the options, scoped middleware, Update, all five kinds; the redirect is
+   enabled by the ROUTE only, 405 by a custom handler, automatic OPTIONS by DefaultOptions *)
 Example chain_exact_example :
-  spec_run [GMw [Some (User 1)]; GMwFor (N.lor NoRouteHandler RedirectHandler) [Some (User 2)]; GDefault; GMwFor RouteHandler [Some (User 3)]]
-           [OHandle 0 10 [Some (User 7)]; OUpdate 0 11 [Some (User 8); Some (User 9)];
-            OServe KRoute 0; OServe KNoRoute 0; OServe KRedirect 0; ORouteHandleMw 0; ORouteHandle 0]
+  spec_run [GMw [Some (User 1)]; GMwFor (N.lor NoRouteHandler RedirectHandler) [Some (User 2)]; GDefault;
+            GMwFor RouteHandler [Some (User 3)]; GCustomH KNoMethod; GCustomH KNoRoute]
+           [OHandle 0 10 [Some (User 7)] []; OUpdate 0 11 [Some (User 8); Some (User 9)] [TIgnore true; TRedirect true];
+            OServe SExact 0; OServe SNoMatch 0; OServe STsr 0; OServe SPost 0; OServe SOptions 0; ORouteHandleMw 0; ORouteHandle 0]
   = RRun [ObsErr None; ObsErr None;
           ObsTrace [Enter Recovery; Enter Logger; Enter (User 1); Enter (User 3); Enter (User 8); Enter (User 9); Run 11;
                     Exit (User 9); Exit (User 8); Exit (User 3); Exit (User 1); Exit Logger; Exit Recovery] (Some RouteHandler);
           ObsTrace [Enter Logger; Enter (User 1); Enter (User 2); Run 1; Exit (User 2); Exit (User 1); Exit Logger] (Some NoRouteHandler);
           ObsTrace [Enter Logger; Enter (User 1); Enter (User 2); Exit (User 2); Exit (User 1); Exit Logger] (Some RedirectHandler);
+          ObsTrace [Enter Logger; Enter (User 1); Run 2; Exit (User 1); Exit Logger] (Some NoMethodHandler);
+          ObsTrace [Enter Logger; Enter (User 1); Exit (User 1); Exit Logger] (Some OptionsHandler);
           ObsTrace [Enter (User 8); Enter (User 9); Run 11; Exit (User 9); Exit (User 8)] None;
           ObsTrace [Run 11] None].
 Proof. vm_compute. reflexivity. Qed.
